@@ -284,6 +284,33 @@ theorem failed_add_variable_unchanged {s : Store} {name : Name} {v : Operand} {d
     (h : (step cfg s (.addVariable name v dtype)).2 = .raised e) : (step cfg s (.addVariable name v dtype)).1 = s :=
   addVariable_failed h
 
+/-- **A name whose storage key is taken is refused** (configuration switch `addVarChecksKeys`, read off the code on
+    every run): a variable `X` lives in `__dict__['_X']`, so `add_variable(name, …)` raises DuplicateNameError —
+    changing nothing — whenever `'_' + name` is already a key: another variable's storage, an attribute spelled
+    `_name`, or one of the container's own entries (`_attributes`, `_strict`: the names `attributes` and `strict`). -/
+theorem add_variable_refuses_taken_key (hc : cfg.addVarChecksKeys = true) {s : Store} {name : Name}
+    (hk : s.dictKeys.contains ("_" ++ name) = true) (v : Operand) (dtype : Option Kind) :
+    step cfg s (.addVariable name v dtype) = (s, .raised .duplicateName) := by
+  simp only [step, addVariable]
+  by_cases h1 : s.index.contains name = true
+  · rw [if_pos h1]
+  · rw [if_neg h1]
+    by_cases h2 : (cfg.addVarChecksAttrs && s.attrs.contains name) = true
+    · rw [if_pos h2]
+    · rw [if_neg h2, if_pos (by rw [hc, hk]; rfl)]
+
+/-- Non-vacuity: on a fresh container `attributes` and `strict` are refused (their keys `_attributes`, `_strict` are
+    the container's own), `Y` is refused once an ad-hoc attribute `_Y` exists, and an ordinary name is accepted and
+    then occupies its key. -/
+example :
+    (step Cfg.fixed (init [0, 1] .seq false) (.addVariable "attributes" (.scalar (.i 1)) none)).2 = .raised .duplicateName ∧
+    (step Cfg.fixed (init [0, 1] .seq false) (.addVariable "strict" (.scalar (.i 1)) none)).2 = .raised .duplicateName ∧
+    (run Cfg.fixed (init [0, 1] .seq false)
+      [.setAttr "_Y" (.scalar (.i 5)) [], .addVariable "Y" (.scalar (.i 1)) none]).index = [] ∧
+    (run Cfg.fixed (init [0, 1] .seq false) [.addVariable "Y" (.scalar (.i 1)) none]).dictKeys
+      = ["_Y", "_attributes", "span", "index", "_strict"] := by
+  decide
+
 /-- Non-vacuity, four ways to not fit: wrong length, unknown name, duplicate name, position out of range. -/
 example : (step Cfg.shipped witnessStore (.setAttr "A" (.list [.i 1, .i 2]) [])).2 = .raised .dimension ∧
     (step Cfg.shipped witnessStore (.setItem "Z" (.scalar (.i 1)))).2 = .raised .key ∧
